@@ -164,6 +164,33 @@ def _gen_own(rng, tier):
             pk[3] |= 0x20; pk[4] = rng.randrange(0, 170)
         out.append(Case("pes.withpes %s %d" % (hx(pk), v1), kind="withpes-readback", theorem="C04_with_pes_readback",
                         proj=c11.proj_withpes))
+    # SetPCR / SetOPCR on a packet (FromBytes) whose field ALREADY decodes to the value being set but is not its
+    # canonical coding: reserved bits cleared or random, or extension 300..511 with the base one lower ("for all prior
+    # contents" of the six bytes; seeded C04-v1: the setter returned early when the decoded value was already v).
+    # af.hist <packet> [ [8 v] ] / [ [9 v] ]: C03's op, compared byte for byte with the model's AF.step here.
+    vals = [v for v in pcr_values(rng, "quick")]
+    for i, v in enumerate(vals[:: (3 if tier == "quick" else 1)]):
+        encs = []
+        canon = bytearray(ref_pcr_bytes(v))
+        e = bytearray(canon); e[4] &= 0x81; encs.append(e)                       # reserved bits 0
+        e = bytearray(canon); e[4] = (e[4] & 0x81) | (rng.randrange(64) << 1); encs.append(e)
+        base, ext = divmod(v, 300)
+        if base >= 1 and ext + 300 < 512:
+            x = ((base - 1) << 15) | (0x3F << 9) | (ext + 300)
+            encs.append(bytearray(x.to_bytes(6, "big")))                          # extension 300.. with base - 1
+            x = ((base - 1) << 15) | (ext + 300)
+            encs.append(bytearray(x.to_bytes(6, "big")))
+        for enc in encs:
+            for code, flag in ((8, 0x10), (9, 0x08)):
+                pk = bytearray(188); pk[0] = 0x47; pk[1] = rng.randrange(0x20); pk[2] = rng.randrange(256)
+                pk[3] = 0x30 | rng.randrange(16); pk[4] = 7 + rng.choice((0, 0, 5, 20)); pk[5] = flag
+                pk[6:12] = enc
+                for j in range(12, 5 + pk[4]):
+                    pk[j] = 0xFF
+                for j in range(5 + pk[4], 188):
+                    pk[j] = rng.randrange(256)
+                out.append(Case("af.hist %s [ [ %d %d ] ]" % (hx(bytes(pk)), code, v), kind="af-set-same-value-noncanonical",
+                                theorem="C04_pcr_layout / C03 step_refines"))
     crosscheck_spec(out)
     return out
 
@@ -252,7 +279,7 @@ def shrink(c):
         for old2, v2 in ((bytes(n), v), (old, v & (v - 1)), (old, v >> 1), (old[:n], v)):
             if (old2, v2) != (old, v) and v2 >= 0:
                 yield Case("%s %s %d" % (f[0], hx(old2), v2), kind=c.kind, theorem=c.theorem)
-    elif f[0] in ("pes.put", "pes.withpes"):
+    elif f[0] in ("pes.put", "pes.withpes", "af.hist"):
         return
     else:
         b = unhx(f[1])
